@@ -109,6 +109,22 @@ func (c *Ctx) stuckPath(h *ssa.BasicBlock, loop map[*ssa.BasicBlock]bool, st *pr
 		if d > 16 {
 			return false
 		}
+		// the whole of a sequence is the sequence: x[:], x[0:], x[:len(x)], x[0:len(x)]
+		if sl, ok := v.(*ssa.Slice); ok && sl.Max == nil {
+			lowZero := sl.Low == nil
+			if k, isK := constIntOpt(sl.Low); isK && k == 0 {
+				lowZero = true
+			}
+			highAll := sl.High == nil
+			if call, isCall := sl.High.(*ssa.Call); isCall {
+				if bi, isB := call.Call.Value.(*ssa.Builtin); isB && bi.Name() == "len" && len(call.Call.Args) == 1 && call.Call.Args[0] == sl.X {
+					highAll = true
+				}
+			}
+			if _, isPtr := sl.X.Type().Underlying().(*types.Pointer); !isPtr && lowZero && highAll {
+				return resolve(sl.X, want, d+1)
+			}
+		}
 		if p, ok := v.(*ssa.Phi); ok && p.Block() != h && loop[p.Block()] {
 			pr := predOf(p.Block())
 			if pr == nil {
@@ -314,4 +330,11 @@ func init() {
 	reg := registry["C07"]
 	reg.Meta.Rules["C07.8"] = "sizes from the file are not added up in 8 or 16 bits: every ADD/SUB/MUL/SHL on the read path whose result type is uint8 or uint16 stays inside the type by the ranges of its operands; the operations that are not decided are frozen per function and only growth is reported (len(data) < int(4+size) with a 16-bit size passes for 0xFFFC and the slice behind it panics)"
 	reg.Rules = append(reg.Rules, func(c *Ctx, r *Result) { narrowWrapRule(c, r, "C07.8") })
+}
+
+func constIntOpt(v ssa.Value) (int64, bool) {
+	if v == nil {
+		return 0, false
+	}
+	return constInt(v)
 }
